@@ -14,7 +14,9 @@ RULE = ("Hypothesis-generated fine flow grids 1x1..12x12 (cell size in "
         "cell sets that are random subsets or areas delineated on acyclic "
         "grids (filled and unfilled); coarse grids with cell-size ratio in "
         "{0.5,1,1.5,2,3,4}, 1..5 rows/cols and quarter-cell offsets so that fine "
-        "centres fall inside, on edges and outside coarse cells; 1..6 "
+        "centres fall inside, on edges and outside coarse cells, origins up to "
+        "2^24 half cells from zero, grids with the shape and resolution of "
+        "the flow direction grid moved by whole cells; 1..6 "
         "Voronoi points inside / outside / on cell centres / equidistant. "
         "Oracle (validity predicate, exact dyadic arithmetic): for each "
         "listed coarse cell n_in <= weight/areafactor <= n_in + n_edge, each "
@@ -35,6 +37,11 @@ def cases(draw, tier):
     n = nr * nc
     csz = draw(st.sampled_from([0.25, 0.5, 1., 2.]))
     ox, oy = draw(st.integers(-20, 20)), draw(st.integers(-20, 20))
+    if draw(st.integers(0, 3)) == 0:
+        # origin far from zero compared with the cell size (projected
+        # coordinates): still exact dyadic arithmetic
+        ox += draw(st.sampled_from([-1, 1])) * 2 ** draw(st.integers(14, 24))
+        oy += draw(st.sampled_from([-1, 1])) * 2 ** draw(st.integers(14, 24))
     case = {"shape": [nr, nc], "fd": gc["fd"], "kind": gc["kind"],
             "csz": csz, "ox": ox, "oy": oy, "src": src,
             "filled": draw(st.booleans())}
@@ -53,6 +60,10 @@ def cases(draw, tier):
     # that overlaps are the norm: offsets in quarter fine cells
     case["anchor"] = draw(st.integers(0, 143))
     case["goff"] = [draw(st.integers(-4, 84)), draw(st.integers(-4, 84))]
+    # a grid with the shape and resolution of the flow direction grid,
+    # moved by whole cells
+    if draw(st.integers(0, 5)) == 0:
+        case["twin"] = [draw(st.integers(-3, 3)), draw(st.integers(-3, 3))]
     npts = draw(st.integers(1, 6))
     # point coordinates in eighths of a fine cell (exact squared
     # distances): on centres, edges, and several points close to the same
@@ -114,6 +125,14 @@ def oracle(case):
     qy = (case["goff"][1] + 4) % span_y - 1
     gx = ax - qx * csz / 4
     gy = ay - qy * csz / 4
+    if case.get("twin") is not None:
+        C = csz
+        gnr, gnc = case["shape"]
+        gx, gy = xll + case["twin"][0] * csz, yll + case["twin"][1] * csz
+        labels.append("twin-of-flowdir-grid:moved-by-"
+                      + ("0" if case["twin"] == [0, 0] else "whole-cells"))
+    if abs(case["ox"]) > 1000:
+        labels.append("origin-far-from-zero")
     g = Grid("g", gnc, gnr, cellsize=C, xllcorner=gx, yllcorner=gy)
     af = (csz / C) ** 2
 
